@@ -180,9 +180,168 @@ def eq_matrix(T):
     return [[bool(a == b) for b in T] for a in T]
 
 
+def tag_specs():
+    """the specs of the tag alphabet, for the independent reference"""
+    import pyproj
+    return ["EPSG:4326", "EPSG:3857", pyproj.CRS.from_epsg(4326).to_wkt(), 4326]
+
+
+_REF: dict = {}
+
+
+def ref_equal(sa, sb) -> bool:
+    """Independent reference for "the same CRS": pyproj's own equality of two CRS objects that
+    pyproj builds from the specs (odc.geo.crs.CRS is not involved, no history)."""
+    import pyproj
+    key = (repr(sa), repr(sb))
+    if key not in _REF:
+        _REF[key] = bool(pyproj.CRS.from_user_input(sa) == pyproj.CRS.from_user_input(sb))
+    return _REF[key]
+
+
 def tag_differs(T, a, b):
-    """Python's a != b on Optional[CRS], evaluated on the real objects"""
+    """do the two tags denote different CRSs - judged by the pyproj reference, not by CRS.__ne__"""
+    if a is None or b is None:
+        return not (a is None and b is None)
+    S = tag_specs()
+    return not ref_equal(S[a], S[b])
+
+
+def real_differs(T, a, b):
+    """Python's a != b on Optional[CRS], evaluated on the real odc.geo objects"""
     return bool(crs_obj(T, a) != crs_obj(T, b))
+
+
+# ---------------------------------------------------------------- CRS equality under construction / inspection histories
+# PROJ strings without a datum (or with another axis order): CRS.to_epsg() *identifies* many of them
+# with an EPSG code although pyproj says the two CRSs differ; which ones is discovered at run time.
+PROJ_CANDIDATES = [
+    "+proj=aea +lat_0=0 +lon_0=132 +lat_1=-18 +lat_2=-36 +x_0=0 +y_0=0 +ellps=GRS80 +units=m +no_defs",
+    "+proj=aea +lat_0=23 +lon_0=-96 +lat_1=29.5 +lat_2=45.5 +x_0=0 +y_0=0 +ellps=GRS80 +units=m +no_defs",
+    "+proj=longlat +datum=WGS84 +no_defs",
+    "+proj=longlat +ellps=GRS80 +no_defs",
+    "+proj=utm +zone=55 +south +ellps=GRS80 +units=m +no_defs",
+    "+proj=utm +zone=33 +ellps=WGS84 +units=m +no_defs",
+    "+proj=utm +zone=33 +datum=WGS84 +units=m +no_defs",
+    "+proj=merc +a=6378137 +b=6378137 +lat_ts=0 +lon_0=0 +x_0=0 +y_0=0 +k=1 +units=m +nadgrids=@null +wktext +no_defs",
+    "+proj=laea +lat_0=52 +lon_0=10 +x_0=4321000 +y_0=3210000 +ellps=GRS80 +units=m +no_defs",
+    "+proj=lcc +lat_0=46.5 +lon_0=3 +lat_1=49 +lat_2=44 +x_0=700000 +y_0=6600000 +ellps=GRS80 +units=m +no_defs",
+    "+proj=tmerc +lat_0=49 +lon_0=-2 +k=0.9996012717 +x_0=400000 +y_0=-100000 +ellps=airy +units=m +no_defs",
+    "+proj=stere +lat_0=-90 +lat_ts=-71 +lon_0=0 +x_0=0 +y_0=0 +ellps=WGS84 +units=m +no_defs",
+    "+proj=sinu +lon_0=0 +x_0=0 +y_0=0 +R=6371007.181 +units=m +no_defs",
+]
+# quick tier: approximate (9473, 4326 axis order, 32633 without datum), exact (32633, 3857) and unidentified (sinusoidal)
+QUICK_CANDIDATES = [0, 2, 5, 6, 7, 12]
+ROUTES = ["str", "pyproj-object", "wkt"]
+HISTORIES = ["fresh", "epsg", "to_epsg", "authority", "hash+str", "pickle", "epsg+pickle", "pickle+epsg", "epsg+copy", "transformer"]
+
+
+def build_crs(spec, route="str", history="fresh"):
+    """construct an odc.geo CRS from `spec` along `route`, then let `history` happen to it"""
+    import pickle
+
+    import pyproj
+    from odc.geo import CRS
+    if route == "pyproj-object":
+        c = CRS(pyproj.CRS.from_user_input(spec))
+    elif route == "wkt":
+        c = CRS(pyproj.CRS.from_user_input(spec).to_wkt())
+    else:
+        c = CRS(spec)
+    for step in history.split("+"):
+        if step == "epsg":
+            _ = c.epsg
+        elif step == "to_epsg":
+            c.to_epsg()
+        elif step == "authority":
+            _ = c.authority
+        elif step == "hash":
+            hash(c)
+        elif step == "str":
+            str(c), repr(c)
+        elif step == "pickle":
+            c = pickle.loads(pickle.dumps(c))
+        elif step == "copy":
+            c = CRS(c)
+        elif step == "transformer":
+            c.transformer_to_crs(CRS("EPSG:4326"))
+    return c
+
+
+_HPAIRS: dict = {}
+
+
+def history_pairs(tier="quick"):
+    """(spec, other spec, kind) discovered with pyproj alone: each PROJ candidate against the spellings
+    of the EPSG code pyproj identifies it with (kind 'approx' when pyproj says they differ, 'exact'
+    when equal) and against its own WKT (kind 'self')."""
+    import pyproj
+    if tier in _HPAIRS:
+        return _HPAIRS[tier]
+    out = []
+    for i, s in enumerate(PROJ_CANDIDATES):
+        if tier == "quick" and i not in QUICK_CANDIDATES:
+            continue
+        p = pyproj.CRS.from_user_input(s)
+        out.append((s, p.to_wkt(), "self"))
+        code = p.to_epsg()
+        if code is None:
+            continue
+        for other in (f"EPSG:{code}", code, pyproj.CRS.from_epsg(code).to_wkt()):
+            out.append((s, other, "exact" if ref_equal(s, other) else "approx"))
+    _HPAIRS[tier] = out
+    return out
+
+
+def p_history(spec_a, route_a, hist_a, spec_b, hist_b):
+    """CRS built from spec_a (along route_a, after hist_a) against CRS built from spec_b (after hist_b):
+    `==`/`!=` and every kind of combining operation must follow the pyproj reference - operands whose
+    CRSs differ raise ValueError, equal ones give shapely's answer tagged with the first operand's CRS -
+    whatever was read from / done to the CRS objects before."""
+    from odc.geo import geom as og
+    from odc.geo.geom import BoundingBox, Geometry
+    from shapely import geometry as sg
+    from shapely import ops as sops
+    same = ref_equal(spec_a, spec_b)
+    A = build_crs(spec_a, route_a, hist_a)
+    B = build_crs(spec_b, "str", hist_b)
+    bad = []
+    if bool(A == B) != same or bool(B == A) != same or bool(A != B) == same:
+        bad.append(f"A == B is {A == B}, B == A is {B == A}, A != B is {A != B}")
+    sa, sb, ln = sg.box(0, 0, 10, 10), sg.box(5, 5, 20, 20), sg.LineString([(-1, 5), (30, 5)])
+    for X, Y, tagxy in ((A, B, "a,b"), (B, A, "b,a")):
+        ga, gb_, gl = Geometry(sa, X), Geometry(sb, Y), Geometry(ln, Y)
+        ba, bb = BoundingBox(0, 0, 10, 10, X), BoundingBox(5, 5, 20, 20, Y)
+        G1, G2 = mk_gbox((4, 5), (0, 0), X), mk_gbox((3, 3), (2, -1), Y)
+        ops = [
+            ("intersects", lambda: ga.intersects(gb_), lambda v: v == sa.intersects(sb)),
+            ("&", lambda: ga & gb_, lambda v: v.geom.wkb == (sa & sb).wkb and v.crs is X),
+            ("union", lambda: ga.union(gb_), lambda v: v.geom.wkb == sa.union(sb).wkb and v.crs is X),
+            ("split", lambda: list(ga.split(gl)), lambda v: [g.geom.wkb for g in v] == [g.wkb for g in sops.split(sa, ln).geoms]),
+            ("multigeom", lambda: og.multigeom([ga, gb_]), lambda v: v.crs is X),
+            ("unary_union", lambda: og.unary_union([ga, gb_]), lambda v: v.geom.wkb == sops.unary_union([sa, sb]).wkb and v.crs is X),
+            ("unary_intersection", lambda: og.unary_intersection([ga, gb_]), lambda v: v.geom.wkb == sa.intersection(sb).wkb),
+            ("bbox_union", lambda: og.bbox_union([ba, bb]), lambda v: v.bbox == (0, 0, 20, 20) and v.crs is X),
+            ("bbox &", lambda: ba & bb, lambda v: v.bbox == (5, 5, 10, 10) and v.crs is X),
+            ("GeoBox |", lambda: G1 | G2, lambda v: v.crs is X),
+            ("GeoBox.overlap_roi", lambda: G1.overlap_roi(G2), lambda v: True),
+        ]
+        for name, fn, good in ops:
+            try:
+                v = fn()
+            except ValueError:
+                if same:
+                    bad.append(f"{name}({tagxy}) raised ValueError although pyproj says the CRSs are equal")
+                continue
+            except Exception as e:
+                bad.append(f"{name}({tagxy}) raised {type(e).__name__}: {e}")
+                continue
+            if not same:
+                bad.append(f"{name}({tagxy}) returned {core.short(v, 120)} although pyproj says the CRSs differ")
+            elif not good(v):
+                bad.append(f"{name}({tagxy}) returned {core.short(v, 120)}: not shapely's answer tagged with the first CRS")
+    head = f"a = CRS({core.short(spec_a, 70)}) via {route_a} after [{hist_a}], b = CRS({core.short(spec_b, 40)}) after [{hist_b}], pyproj reference: {'equal' if same else 'different'}: "
+    return (not bad), head + "; ".join(bad[:6])
 
 
 def shapes():
@@ -693,7 +852,8 @@ def p_call_mixed(qual):
     return (not bad), f"{qual} on operands in different CRSs: " + "; ".join(bad)
 
 
-PREDICATES = {"pair": p_pair, "nary": p_nary, "geobox": p_geobox, "split": p_split, "call_mixed": p_call_mixed}
+PREDICATES = {"pair": p_pair, "nary": p_nary, "geobox": p_geobox, "split": p_split, "call_mixed": p_call_mixed,
+              "history": p_history}
 
 
 def search(out, tier, offenders):
@@ -708,6 +868,8 @@ def search(out, tier, offenders):
         out.count("predicate:" + name)
         out.case(("pred", name, json.dumps(list(args), default=str)), True)
         key = f"c01:{name}:{args[0]}" if name in ("pair", "nary", "geobox", "call_mixed") else f"c01:{name}"
+        if name == "history":
+            key = f"c01:history:{str(args[0])[:24]}"
         if not ok and key not in found:
             found.add(key)
             out.violation(key, f"{name}{list(args)}: {detail}", {"predicate": name, "args": list(args), "observed": detail})
@@ -727,6 +889,17 @@ def search(out, tier, offenders):
         run("split", ta, tb)
         for op in ("or", "and", "overlap_roi", "snap_to", "pixel_translation", "bounding_box_in_pixel_domain", "union3", "intersection3"):
             run("geobox", op, ta, tb)
+    # CRS equality under histories: every discovered (PROJ string, EPSG spelling) pair x construction
+    # route x what happened to either object before the operands are combined
+    hp = history_pairs(tier)
+    for spec_a, spec_b, kind in hp:
+        out.count("history-pair:" + kind)
+        combos = list(itertools.product(ROUTES if kind != "self" else ["str"], HISTORIES, HISTORIES))
+        must = [c for c in combos if c[0] == "str" and c[1] in ("fresh", "epsg", "epsg+copy", "pickle+epsg") and c[2] in ("fresh", "epsg")]
+        rest = [c for c in combos if c not in must]
+        n_extra = (4 if tier == "quick" else 60) if kind != "self" else (2 if tier == "quick" else 20)
+        for route, ha, hb in (must if kind != "self" else must[:2]) + rng.sample(rest, min(n_extra, len(rest))):
+            run("history", spec_a, route, ha, spec_b, hb)
     polys = ["polygon", "polygon-overlap", "polygon-hole", "multipolygon"]
     for fname in ("unary_union", "unary_intersection", "multigeom", "common_crs", "bbox_union", "bbox_intersection"):
         for n in (1, 2, 3, 5):
@@ -749,12 +922,18 @@ def run(out, tier, scratch):
                 "dunders of the tagged classes always) must be in the proved table or the allow-list.  correspondence: every wrapped "
                 "method x all 25 ordered tag pairs over {None, EPSG:4326, EPSG:3857, 4326 as WKT, 4326 as int} x sampled (5 quick / 60 thorough per op and tag pair) "
                 "pairs of 14 geometry kinds; split; n-ary folds over tag lists of length 0-6 with the odd element at every position; "
-                "GeoBox pairs and streams.  non-trivial = everything but empty streams; distinct = distinct (operation, tags, kinds).")
+                "GeoBox pairs and streams.  history search: PROJ strings without datum that to_epsg() identifies with an EPSG code (discovered with "
+                "pyproj at run time: approximate, exact and unidentified ones) x spellings of that code x construction route (string, pyproj "
+                "object, WKT) x what happened to either CRS object before combining (.epsg / to_epsg() / authority read, hash, pickling, copy, "
+                "transformer cache), judged by pyproj equality, 11 combining operations in both operand orders.  non-trivial = everything but empty streams; distinct = distinct (operation, tags, kinds).")
     out.assumptions += [
         "the raw shapely function of every operation is uninterpreted in the theorems; in the correspondence it is the table of shapely's "
         "own answers on the raw shapes",
         "CRS equality (CRS.__eq__, pyproj) is an arbitrary boolean relation in the theorems; the correspondence uses the equality matrix "
         "measured on the real CRS objects of this run",
+        "whether two CRSs are the same is judged by an independent reference: pyproj's equality of CRS objects pyproj builds from the "
+        "specs; CRS.__eq__ must agree with it for every construction route and inspection history (checked as an oracle obligation and, "
+        "through the combining operations, by the `history` predicate)",
         "unary_intersection's closed form assumes shapely's intersection of two geometries is a geometry",
         "Geometry.split is a generator: the CRS test runs when the result is first iterated; the model describes the consumed list",
     ]
@@ -788,7 +967,34 @@ def run(out, tier, scratch):
     out.oblige("oracle:CRS.__eq__ on {4326, 3857, 4326-WKT, 4326-int} is the expected equivalence (spellings equal, 3857 differs)",
                "oracle", m == want, f"measured {m}")
     out.oblige("oracle:None != CRS and CRS != None are True, None != None is False", "oracle",
-               all(tag_differs(T, None, i) and tag_differs(T, i, None) for i in range(4)) and not tag_differs(T, None, None), "")
+               all(real_differs(T, None, i) and real_differs(T, i, None) for i in range(4)) and not real_differs(T, None, None), "")
+    S = tag_specs()
+    refm = [[ref_equal(a, b) for b in S] for a in S]
+    out.oblige("oracle:CRS.__eq__ on the tag alphabet agrees with pyproj's own equality of independently built CRSs", "oracle",
+               m == refm, f"measured {m}, pyproj reference {refm}")
+    # ... and keeps agreeing whatever was read from / done to the objects before (lazy EPSG identification,
+    # pickling, copies, caches): the gate of every operation relies on it
+    dis, built, ncmp = [], {}, 0
+
+    def obj(spec, route, hist):      # every object is built once; == does not change it
+        k = (repr(spec), route, hist)
+        if k not in built:
+            built[k] = build_crs(spec, route, hist)
+        return built[k]
+
+    ha_list = ["fresh", "epsg", "authority", "pickle", "pickle+epsg", "epsg+copy", "epsg+pickle"]
+    for spec_a, spec_b, kind in history_pairs(tier):
+        same = ref_equal(spec_a, spec_b)
+        for route in (ROUTES if kind != "self" else ["str"]):
+            for ha, hb in itertools.product(ha_list, ("fresh", "epsg", "pickle")):
+                A, B = obj(spec_a, route, ha), obj(spec_b, "str", hb)
+                ncmp += 1
+                if bool(A == B) != same or bool(B == A) != same:
+                    dis.append(f"CRS({core.short(spec_a, 50)}) via {route} after [{ha}] vs CRS({core.short(spec_b, 30)}) after [{hb}]: "
+                               f"== is {A == B}/{B == A}, pyproj says {same}")
+    out.oblige("oracle:CRS.__eq__ agrees with pyproj equality for every construction route and inspection history "
+               "(lazily identified EPSG codes, pickling, copies, caches)", "oracle", not dis, "; ".join(dis[:4]))
+    out.count("history-eq-comparisons", ncmp)
     # ---- correspondence
     cases, notes = gen_cases(out, tier)
     order = list(range(len(cases)))
@@ -832,7 +1038,8 @@ META = {
              "static scan (tools/props/c01.py: AST enumeration, table EXPLICIT, allow-list ALLOW with reasons - the allow-list is part "
              "of the trusted base).  Oracles: raw shapely functions (completely uninterpreted); CRS equality = pyproj/CRS.__eq__ "
              "(arbitrary relation in the theorems - not even reflexivity is used; the check validates on its tag alphabet that the four "
-             "spellings behave as an equivalence); for the closed form of unary_intersection, shapely's intersection returns a geometry.  "
+             "spellings behave as an equivalence, and - against pyproj's own equality as independent reference - that == does not depend on "
+             "construction route, lazy EPSG identification (.epsg/to_epsg()), pickling, copying or cache population); for the closed form of unary_intersection, shapely's intersection returns a geometry.  "
              "Modelled conventions: Geometry.split is a generator, so its CRSMismatchError is raised at first iteration (the model is "
              "the consumed list); GeoBox operations raise a plain ValueError('Geobox CRSs must match'), not CRSMismatchError (the "
              "property asks for a ValueError); a | b with a non-invertible first affine fails in affine inversion before the CRS test of "
